@@ -343,8 +343,10 @@ def zernike_remove(opd, mask, modes, rho=None, theta=None):
     opd = np.asarray(opd)
     mask = np.asarray(mask)
 
-    coeffs = zernike_fit(opd, mask, modes, rho, theta)
-    fit_opd = zernike_compose(mask, coeffs, rho, theta)
+    modes = np.atleast_1d(modes)
+    coeffs = zernike_fit(opd, mask, modes, rho=rho, theta=theta)
+    basis = zernike_basis(mask, modes, rho=rho, theta=theta)
+    fit_opd = np.einsum('ijk,i->jk', basis, coeffs)
 
     residual = opd - fit_opd
 
